@@ -250,6 +250,9 @@ def _validate_frontend_args(parser, lexer) -> None:
 
 def _get_lexer_callbacks(transformer, terminals):
     result = {}
+    if not getattr(transformer, '__visit_tokens__', True):
+        # Transformer(visit_tokens=False) leaves tokens alone; so must the embedded transformer
+        return result
     for terminal in terminals:
         callback = getattr(transformer, terminal.name, None)
         if callback is not None:
